@@ -60,6 +60,19 @@ func (propC04) Gen(r *Rng, run uint64, tier string) *Plan {
 	}
 	p.World = GenWorld(r.Sub("world"), spec)
 	p.Query = "{}"
+	if p.Harness == "selectlogs" && len(p.World.Containers) >= 3 && r.Bool(0.2) {
+		// the same querier served a narrower selection before
+		var sub []*Container
+		for i := range p.World.Containers {
+			if c := &p.World.Containers[i]; c.Name() != "" && r.Bool(0.45) {
+				sub = append(sub, c)
+			}
+		}
+		if len(sub) > 0 {
+			p.Tags["pre_query"] = nameSelector(sub)
+			p.Tags["pre_n"] = fmt.Sprint(len(sub))
+		}
+	}
 	// Mostly the window covers everything; sometimes it cuts into the log.
 	p.Params = Params{Start: BaseNs - 3*sec, End: BaseNs + 125*sec, StepNs: sec, Limit: -1}
 	if r.Bool(0.25) {
@@ -87,6 +100,12 @@ func (propC04) Gen(r *Rng, run uint64, tier string) *Plan {
 			v = genVariant(vr.SubN("v", uint64(i)), []int{n}, base+int64(i), false, true)
 		} else {
 			v = genVariant(vr.SubN("v", uint64(i)), []int{n}, -1, false, true)
+		}
+		if p.Tags["pre_query"] != "" {
+			// the earlier selection is a batch of its own, released in a random order
+			var pn int
+			fmt.Sscan(p.Tags["pre_n"], &pn)
+			v.Batches = append([][]int{vr.SubN("pre", uint64(i)).Perm(pn)}, v.Batches...)
 		}
 		p.Variants = append(p.Variants, v)
 	}
@@ -135,7 +154,14 @@ func (propC04) Check(t *testing.T, p *Plan, st *Stats) *Violation {
 		allSorted := true
 		total := 0
 		opened := map[string]bool{}
+		lastPhase := 0
+		if p.Tags["pre_query"] != "" {
+			lastPhase = 1
+		}
 		for _, oc := range o.Opens {
+			if oc.Phase != lastPhase {
+				continue
+			}
 			if opened[oc.ID] {
 				return viol(vi, "C04(a:conservation)", "one log request per selected container", "container "+oc.ID+" requested twice")
 			}
@@ -266,6 +292,7 @@ func (propC04) Check(t *testing.T, p *Plan, st *Stats) *Violation {
 			st.ProbeIf(tieWithin, "tie_within_container")
 			st.ProbeIf(empty && n >= 2, "empty_source_in_merge")
 			st.ProbeIf(!allSorted, "unsorted_source")
+			st.ProbeIf(p.Tags["pre_query"] != "", "querier_reused_after_narrower_selection")
 			st.ProbeIf(p.Tags["exhaustive_orders"] != "", "all_orders_walked")
 		}
 		if st != nil && len(o.Opens) >= 2 {
